@@ -132,6 +132,20 @@ def run(prog, rep):
                 detail += " / " + msg
             else:
                 ok = False
+        # the length announced to the serializer is the length of the container that is iterated (or None)
+        for hb, ht in body.calls():
+            if is_callee(ht, r"Serializer::serialize_(seq|map)$"):
+                hint = strip(tr.operand(ht["args"][1]))
+                hc = canon(hint)
+                if hc.startswith("option::Option::None"):
+                    rep.ok("E8.j", "%s :: length hint" % ty.rsplit("::", 1)[-1], f.loc(), "no length announced")
+                    continue
+                m = re.match(r"^option::Option::Some\{\w+::len\((.*)\)\}$", hc)
+                chain = lambda x: [p_ for p_ in re.sub(r"[&*()]", "", x).split(".")]
+                it_m = re.search(r"(arg:self(?:\.\w+)*)", detail or "")
+                okh = m is not None and it_m is not None and chain(m.group(1)) == chain(it_m.group(1))
+                rep.check(okh, "E8.j", "%s :: length hint" % ty.rsplit("::", 1)[-1], f.loc(), "announces len() of the iterated container",
+                          "the announced length %s is not the length of the iterated container %s: a length-prefixed or length-checking serializer emits a truncated / rejected sequence" % (hc, detail))
         rep.check(ok, "E8.j", "%s :: sequence" % ty.rsplit("::", 1)[-1], f.loc(), what, "%s is not serialised as a complete forward iteration (%s)" % (ty.rsplit("::", 1)[-1], detail))
         if ty == "tsg::graph::Graph":
             el = [(b, t) for b, t in body.calls() if is_callee(t, elem_pat)]
